@@ -938,7 +938,13 @@ where
         .zip(right_points.iter())
         .map(|(l_p, r_p)| *l_p * r_p)
         .collect();
-    Polynomial::<N>::idft(&product_points, lhs.tolerance)
+    let mut product = Polynomial::<N>::idft(&product_points, lhs.tolerance);
+    // Anything above the sum of the degrees is rounding noise of the transforms
+    product
+        .coefficients
+        .truncate(lhs.coefficients.len() + rhs.coefficients.len() - 1);
+    product.purge_leading();
+    product
 }
 
 impl<N: ComplexField + FromPrimitive + Copy> ops::Mul<Polynomial<N>> for Polynomial<N>
